@@ -172,6 +172,16 @@ impl Instant {
     pub fn duration_since(&self, earlier: Instant) -> Duration {
         self.0.saturating_sub(earlier.0)
     }
+    pub fn saturating_duration_since(&self, earlier: Instant) -> Duration {
+        self.0.saturating_sub(earlier.0)
+    }
+    /// None on overflow, as std's Instant
+    pub fn checked_add(&self, d: Duration) -> Option<Instant> {
+        self.0.checked_add(d).map(Instant)
+    }
+    pub fn checked_sub(&self, d: Duration) -> Option<Instant> {
+        self.0.checked_sub(d).map(Instant)
+    }
 }
 impl core::ops::Add<Duration> for Instant {
     type Output = Instant;
